@@ -203,6 +203,7 @@ impl Prop for C04 {
         v.push("Act:unchanged:nosettle".into());
         v.push("Act:unchanged:chain0".into());
         v.push("probed-dates".into());
+        v.push("calendar:inside-CalType-container".to_string());
         v
     }
     fn min_evaluations(&self, tier: Tier) -> u64 {
@@ -265,6 +266,9 @@ impl Prop for C04 {
                 ctx.crumb(&format!("named {}", name));
                 match build_cal(&spec) {
                     Some(any) => {
+                        if any.is_wrapped() {
+                            ctx.class("calendar:inside-CalType-container");
+                        }
                         with_cal!(&any, c => run_on(ctx, c, &spec, &dates, rng));
                     }
                     None => ctx.violation(&format!("C04|named-unresolved|{}", name), json!({"name": name})),
@@ -284,6 +288,9 @@ impl Prop for C04 {
                 let dates: Vec<i64> = (z0..=z1).collect();
                 match build_cal(&spec) {
                     Some(any) => {
+                        if any.is_wrapped() {
+                            ctx.class("calendar:inside-CalType-container");
+                        }
                         with_cal!(&any, c => run_on(ctx, c, &spec, &dates, rng));
                     }
                     None => ctx.harness_error("could not build generated calendar".into()),
